@@ -4,7 +4,7 @@
    which scancode set the hardware delivers").  The five JIS keys are excepted (open known finding F1).
    The stronger statement - the result is what the layout returns for K - is Props/E2E_full.v. *)
 From Coq Require Import NArith Bool List String.
-From PK Require Import Base.Outcome Base.Finite Gen.All Impl Enc Seq Spec.ScanRef Spec.ScanAuto Spec.Event Syn.Lay Check.Lay.
+From PK Require Import Base.Outcome Base.Finite Gen.All Impl Enc Seq Spec.ScanRef Spec.ScanAuto Spec.Mods Syn.Lay Check.Lay.
 Import ListNotations.
 Local Open Scope N_scope.
 
